@@ -1,6 +1,6 @@
 # Sizing and claim for C17 (all output sinks agree; stream insertion / extraction)
 SPEC = {
-    "quick": {"rc_cases": 60000, "rc_procs": 14, "enum": True},
+    "quick": {"rc_cases": 20000, "rc_procs": 12, "enum": True},
     "thorough": {"rc_cases": 150000, "rc_procs": 14, "enum": True, "fuzz_secs": 180, "fuzz_workers": 8},
     "assumptions": [
         "FILE* output is captured with open_memstream, stream output with std::basic_ostringstream of the four character types",
